@@ -270,6 +270,9 @@ def apply_rules(text, rules, log):
                 log.add(rule, r.get("why", ""), ms[0].group(0), pat.sub(r["repl"], ms[0].group(0), count=1), n)
             text = pat.sub(r["repl"], text)
             continue
+        if kind == "closure_inline":
+            text = _inline_closure(text, r, log)
+            continue
         if kind == "lock_iflet":
             text = _rewrite_lock_iflet(text, r, log)
             continue
@@ -277,6 +280,35 @@ def apply_rules(text, rules, log):
             text = _rewrite_call(text, r, log)
             continue
         raise ExtractError("unknown rule kind %r" % kind)
+    return text
+
+
+def _inline_closure(text, r, log):
+    """R11:  `let mut NAME = |P: T| { BODY };`  +  calls `NAME(ARG);`   ->   body pasted at each call as
+    `{ let P = ARG; BODY }` (beta-reduction). Fails closed if NAME is used in any other shape."""
+    name = r["name"]
+    m = re.search(r"let\s+(?:mut\s+)?%s\s*=\s*\|\s*(\w+)\s*:\s*[^|]+\|\s*\{" % re.escape(name), text)
+    if not m:
+        raise ExtractError("lost anchor: closure %s not found" % name)
+    ob = m.end() - 1
+    sub = text[ob:]
+    toks = lex.code_tokens(sub)
+    ce = ob + toks[lex.match_close(sub, toks, 0)][2]
+    body = text[ob + 1:ce - 1]
+    rest = text[ce:]
+    ms = re.match(r"\s*;", rest)
+    if not ms:
+        raise ExtractError("closure %s is not a plain `let` statement" % name)
+    param = m.group(1)
+    text = text[:m.start()] + text[ce + ms.end():]
+    call = re.compile(r"\b%s\(([^();]*)\);" % re.escape(name))
+    calls = call.findall(text)
+    if not calls:
+        raise ExtractError("closure %s is never called in the expected shape" % name)
+    text = call.sub(lambda mm: "{ let %s = %s;%s}" % (param, mm.group(1), body), text)
+    if re.search(r"\b%s\b" % re.escape(name), text):
+        raise ExtractError("closure %s is used in an unsupported shape" % name)
+    log.add(r.get("rule", "R11"), "closure `%s` inlined at its %d call site(s) (beta-reduction)" % (name, len(calls)), "let mut %s = |%s| {..}" % (name, param), "{ let %s = <arg>; .. }" % param, len(calls))
     return text
 
 
@@ -421,9 +453,9 @@ def annotate_loops(text, loops, labels, unit_name, fn_name):
 
 def apply_hints(text, hints, fn_name):
     for h in hints:
-        if "after_loop" in h or "loop_body_start" in h:
+        if "after_loop" in h or "loop_body_start" in h or "loop_body_end" in h:
             # structural anchors: right after the closing brace / right after the opening brace of loop #n
-            n = h.get("after_loop", h.get("loop_body_start"))
+            n = h.get("after_loop", h.get("loop_body_start", h.get("loop_body_end")))
             found = find_loops(text)
             if n >= len(found):
                 raise ExtractError("lost anchor: loop #%d for a structural hint in %s" % (n, fn_name))
@@ -433,6 +465,8 @@ def apply_hints(text, hints, fn_name):
             ce = ob + toks[lex.match_close(sub, toks, 0)][2]
             if "after_loop" in h:
                 text = text[:ce] + "\n" + h["text"] + "\n" + text[ce:]
+            elif "loop_body_end" in h:
+                text = text[:ce - 1] + "\n" + h["text"] + "\n" + text[ce - 1:]
             else:
                 text = text[:ob + 1] + "\n" + h["text"] + "\n" + text[ob + 1:]
             continue
